@@ -15,7 +15,9 @@ import (
 )
 
 func TestMain(m *testing.M) {
-	logger.Disable()
+	if os.Getenv("VERIF_DEBUG") == "" {
+		logger.Disable()
+	}
 	os.Exit(m.Run())
 }
 
